@@ -302,6 +302,8 @@ def _set_week(pendulum, ws, plain_int=None):
     else:
         pendulum.week_starts_at(pendulum.WeekDay(ws))
         pendulum.week_ends_at(pendulum.WeekDay((ws + 6) % 7))
+    import calendar as _calendar
+    _calendar.setfirstweekday(int(ws))     # the stdlib's own process-wide first weekday travels with it
 
 
 def anomalous_transitions(z):
